@@ -126,12 +126,12 @@ func Append(ctx context.Context, basen ipld.Node, db *h.DagBuilderHelper) (out i
 	}
 
 	// Last child in this node may not be a full tree, lets fill it up.
-	if err := appendFillLastChild(ctx, fsn, depth-1, repeatNumber, db); err != nil {
+	if err := appendFillLastChild(ctx, fsn, depth, repeatNumber, db); err != nil {
 		return nil, err
 	}
 
-	// after appendFillLastChild, our depth is now increased by one
-	if !db.Done() {
+	// appendFillLastChild completed the layer it found partially filled
+	if repeatNumber != 0 {
 		depth++
 	}
 
@@ -166,8 +166,14 @@ func appendFillLastChild(ctx context.Context, fsn *h.FSNodeOverDag, depth int, r
 		return err
 	}
 
-	// Fill out last child (may not be full tree)
-	newChild, nchildSize, err := appendRec(ctx, lastChild, db, depth-1)
+	// Fill out last child (may not be full tree): it belongs to the layer
+	// being filled (`depth`) when that layer has been started, otherwise
+	// to the previous, complete, one.
+	lastDepth := depth
+	if repeatNumber == 0 {
+		lastDepth = depth - 1
+	}
+	newChild, nchildSize, err := appendRec(ctx, lastChild, db, lastDepth)
 	if err != nil {
 		return err
 	}
@@ -227,8 +233,8 @@ func appendRec(ctx context.Context, fsn *h.FSNodeOverDag, db *h.DagBuilderHelper
 		return nil, 0, err
 	}
 
-	// after appendFillLastChild, our depth is now increased by one
-	if !db.Done() {
+	// appendFillLastChild completed the layer it found partially filled
+	if repeatNumber != 0 {
 		depth++
 	}
 
